@@ -84,6 +84,7 @@ From Nexus Require Import Router.RealmTraceLib Router.RealmTrace Router.RealmTra
      Router.RealmTraceC03 Router.RealmTraceEx.
 From Nexus Require Import Router.RealmTraceC13 Router.RealmTraceC13Step Router.RealmTraceC13Nd Router.RealmTraceC13Inv
      Router.RealmTraceC13Thm Router.RealmTraceC13Fire Router.RealmTraceC13Once Router.RealmTraceC13Ex.
+From Nexus Require Import Router.RealmTraceC13Fwd Router.RealmTraceC13FwdHist Router.RealmTraceC13FwdEx.
 
 (** ** The gate hypothesis, discharged *)
 Theorem gate_transparent_no_authz : forall cfg ops, c_authz cfg = None -> along gate_transparent (init_realm cfg) ops.
@@ -229,6 +230,153 @@ Theorem realm_timeout_kept_arms_timer : forall cfg ops1 x q opts proc a kw orc o
               Some (clock (trace cfg ops1) + Z.to_N (opt_int64 opts "timeout"), (x, q)).
 Proof. exact timeout_kept_arms_timer_noauthz_proof. Qed.
 Print Assumptions realm_timeout_kept_arms_timer.
+
+(** ** forward_timeout is per callee (repair fe3aa7b): statements in op-index style,
+    [r] = the state before the step, any authorizer (the message as the gate left it);
+    [_noauthz] corollaries speak of the operation literally *)
+
+(** an INVOCATION carries [timeout] exactly when it is a first chunk, the CALL's
+    timeout is positive, the callee it goes to announced call_timeout and THAT
+    callee is in the registration's [reg_fwd_timeout] *)
+Theorem realm_timeout_forwarded_iff : forall cfg pre o post y inv rid det a k,
+    let ops := pre ++ o :: post in
+    let r := fst (run (init_realm cfg) pre) in
+    Forall op_ok ops -> k0 cfg + N.of_nat (List.length ops) <= max_idN ->
+    In (y, RInvocation inv rid det a k) (snd (step r o)) ->
+    y <> meta_id /\
+    exists x m orc xs q opts proc,
+      o = OMsg x m orc /\ find_session (r_clients r) x = Some xs /\
+      gate r xs m = inl (CCall q opts proc a k) /\
+      ((* a further chunk: progress only, no timeout *)
+       (cget (d_bycall (r_dealer r)) (x, q) <> None /\
+        det = [("progress", VBool (opt_bool opts "progress"))] /\ dget det "timeout" = None) \/
+       (* a first chunk *)
+       (cget (d_bycall (r_dealer r)) (x, q) = None /\
+        exists rg ys,
+          nget (d_regs (r_dealer r)) rid = Some rg /\ In y (reg_callees rg) /\
+          find_session (r_clients r) y = Some ys /\
+          dget det "timeout" =
+          (if (0 <? opt_int64 opts "timeout")%Z && sess_feature ys "callee" "call_timeout" && reg_forwards rg y
+           then Some (VInt KInt64 (opt_int64 opts "timeout")) else None))).
+Proof. exact timeout_forwarded_iff_hist_proof. Qed.
+Print Assumptions realm_timeout_forwarded_iff.
+
+Theorem realm_timeout_forwarded_iff_noauthz : forall cfg pre o post y inv rid det a k,
+    let ops := pre ++ o :: post in
+    let r := fst (run (init_realm cfg) pre) in
+    c_authz cfg = None ->
+    Forall op_ok ops -> k0 cfg + N.of_nat (List.length ops) <= max_idN ->
+    In (y, RInvocation inv rid det a k) (snd (step r o)) ->
+    y <> meta_id /\
+    exists x orc xs q opts proc,
+      o = OMsg x (CCall q opts proc a k) orc /\ find_session (r_clients r) x = Some xs /\
+      ((cget (d_bycall (r_dealer r)) (x, q) <> None /\
+        det = [("progress", VBool (opt_bool opts "progress"))] /\ dget det "timeout" = None) \/
+       (cget (d_bycall (r_dealer r)) (x, q) = None /\
+        exists rg ys,
+          nget (d_regs (r_dealer r)) rid = Some rg /\ In y (reg_callees rg) /\
+          find_session (r_clients r) y = Some ys /\
+          dget det "timeout" =
+          (if (0 <? opt_int64 opts "timeout")%Z && sess_feature ys "callee" "call_timeout" && reg_forwards rg y
+           then Some (VInt KInt64 (opt_int64 opts "timeout")) else None))).
+Proof. exact timeout_forwarded_iff_hist_noauthz_proof. Qed.
+Print Assumptions realm_timeout_forwarded_iff_noauthz.
+
+(** a client is in [reg_fwd_timeout] only through its OWN REGISTER with
+    forward_timeout = true answered REGISTERED for that registration, and has
+    been in the list, a callee and attached ever since *)
+Theorem realm_forward_flag_origin : forall cfg ops rid rg sid,
+    Forall op_ok ops -> k0 cfg + N.of_nat (List.length ops) <= max_idN ->
+    nget (d_regs (r_dealer (fst (run (init_realm cfg) ops)))) rid = Some rg ->
+    In sid (reg_fwd_timeout rg) -> sid <> meta_id ->
+    exists pre o post m orc xs req opts proc,
+      ops = pre ++ o :: post /\
+      let r1 := fst (run (init_realm cfg) pre) in
+      (* the session's own REGISTER with forward_timeout *)
+      o = OMsg sid m orc /\ find_session (r_clients r1) sid = Some xs /\
+      gate r1 xs m = inl (CRegister req opts proc) /\
+      In (sid, RRegistered req rid) (snd (step r1 o)) /\
+      opt_bool opts "forward_timeout" = true /\
+      (* in every state since: attached, in the list, a callee of [rid] *)
+      (forall mid rest, post = mid ++ rest ->
+         let r2 := fst (run (init_realm cfg) (pre ++ o :: mid)) in
+         client r2 sid /\
+         exists rg2, nget (d_regs (r_dealer r2)) rid = Some rg2 /\ In sid (reg_fwd_timeout rg2) /\ In sid (reg_callees rg2)) /\
+      (* no UNREGISTER of [rid] by it was answered UNREGISTERED since *)
+      (forall mid u rest m2 orc2 s2 q q', post = mid ++ u :: rest ->
+         let r2 := fst (run (init_realm cfg) (pre ++ o :: mid)) in
+         u = OMsg sid m2 orc2 -> find_session (r_clients r2) sid = Some s2 ->
+         gate r2 s2 m2 = inl (CUnregister q rid) -> ~ In (sid, RUnregistered q') (snd (step r2 u))).
+Proof. exact forward_flag_origin_proof. Qed.
+Print Assumptions realm_forward_flag_origin.
+
+(** a session that is not attached is in no list, and joining gives none *)
+Theorem realm_rejoin_without_forward_flag : forall cfg ops sid l h rid,
+    Forall op_ok ops -> k0 cfg + N.of_nat (List.length ops) <= max_idN ->
+    sid <> meta_id -> ~ client (fst (run (init_realm cfg) ops)) sid ->
+    (forall rg, nget (d_regs (r_dealer (fst (run (init_realm cfg) ops)))) rid = Some rg -> ~ In sid (reg_fwd_timeout rg)) /\
+    (forall rg, nget (d_regs (r_dealer (fst (step (fst (run (init_realm cfg) ops)) (OJoin sid l h))))) rid = Some rg ->
+                ~ In sid (reg_fwd_timeout rg)).
+Proof. exact rejoin_without_forward_flag_proof. Qed.
+Print Assumptions realm_rejoin_without_forward_flag.
+
+Theorem fwd_witness_hist_meaning : forall cfg ops rid sid,
+    fwd_witness_hist cfg ops rid sid <->
+    exists pre o post m orc xs req opts proc,
+      ops = pre ++ o :: post /\
+      o = OMsg sid m orc /\ find_session (r_clients (fst (run (init_realm cfg) pre))) sid = Some xs /\
+      gate (fst (run (init_realm cfg) pre)) xs m = inl (CRegister req opts proc) /\
+      In (sid, RRegistered req rid) (snd (step (fst (run (init_realm cfg) pre)) o)) /\
+      opt_bool opts "forward_timeout" = true /\
+      forall mid rest, post = mid ++ rest ->
+        exists rg, nget (d_regs (r_dealer (fst (run (init_realm cfg) (pre ++ o :: mid))))) rid = Some rg /\
+                   In sid (reg_fwd_timeout rg).
+Proof. exact fwd_witness_hist_meaning. Qed.
+Print Assumptions fwd_witness_hist_meaning.
+
+(** an INVOCATION carries [timeout] only if the callee it goes to announced
+    call_timeout and itself REGISTERed with forward_timeout = true for that
+    registration (and has been a callee of it ever since); otherwise a positive
+    timeout arms the router's timer ([realm_timeout_kept_arms_timer]).  The
+    [_partial] form holds for ANY authorizer and speaks of the CALL as the gate
+    left it. *)
+Theorem realm_timeout_forwarded_only_if_callee_asked_partial : forall cfg pre o post y inv rid det a k,
+    let ops := pre ++ o :: post in
+    let r := fst (run (init_realm cfg) pre) in
+    Forall op_ok ops -> k0 cfg + N.of_nat (List.length ops) <= max_idN ->
+    In (y, RInvocation inv rid det a k) (snd (step r o)) ->
+    dget det "timeout" <> None ->
+    exists x m orc xs q opts proc rg ys,
+      o = OMsg x m orc /\ find_session (r_clients r) x = Some xs /\
+      gate r xs m = inl (CCall q opts proc a k) /\
+      cget (d_bycall (r_dealer r)) (x, q) = None /\
+      y <> meta_id /\ find_session (r_clients r) y = Some ys /\
+      nget (d_regs (r_dealer r)) rid = Some rg /\ In y (reg_callees rg) /\
+      sess_feature ys "callee" "call_timeout" = true /\
+      In y (reg_fwd_timeout rg) /\ fwd_witness_hist cfg pre rid y /\
+      (0 < opt_int64 opts "timeout")%Z /\
+      dget det "timeout" = Some (VInt KInt64 (opt_int64 opts "timeout")).
+Proof. exact timeout_forwarded_only_if_callee_asked_proof. Qed.
+Print Assumptions realm_timeout_forwarded_only_if_callee_asked_partial.
+
+Theorem realm_timeout_forwarded_only_if_callee_asked : forall cfg pre o post y inv rid det a k,
+    let ops := pre ++ o :: post in
+    let r := fst (run (init_realm cfg) pre) in
+    c_authz cfg = None ->
+    Forall op_ok ops -> k0 cfg + N.of_nat (List.length ops) <= max_idN ->
+    In (y, RInvocation inv rid det a k) (snd (step r o)) ->
+    dget det "timeout" <> None ->
+    exists x orc xs q opts proc rg ys,
+      o = OMsg x (CCall q opts proc a k) orc /\ find_session (r_clients r) x = Some xs /\
+      cget (d_bycall (r_dealer r)) (x, q) = None /\
+      y <> meta_id /\ find_session (r_clients r) y = Some ys /\
+      nget (d_regs (r_dealer r)) rid = Some rg /\ In y (reg_callees rg) /\
+      sess_feature ys "callee" "call_timeout" = true /\
+      In y (reg_fwd_timeout rg) /\ fwd_witness_hist cfg pre rid y /\
+      (0 < opt_int64 opts "timeout")%Z /\
+      dget det "timeout" = Some (VInt KInt64 (opt_int64 opts "timeout")).
+Proof. exact timeout_forwarded_only_if_callee_asked_noauthz_proof. Qed.
+Print Assumptions realm_timeout_forwarded_only_if_callee_asked.
 
 (** ** (c) the triggers of an INTERRUPT *)
 Theorem realm_interrupt_only_for_pending_partial : forall cfg ops y i iopts pre post,
@@ -400,3 +548,45 @@ Example histories_c13_once_hypotheses_satisfiable :
     trace cfg13 OnceEx.ops = OnceEx.pre ++ OnceEx.e1 :: OnceEx.mid ++ OnceEx.e2 :: [] /\
     rintr_ev 11 1 OnceEx.e1 /\ rintr_ev 11 1 OnceEx.e2.
 Proof. exact OnceEx.hyps. Qed.
+
+(** forward_timeout per callee on a shared registration: the creator 20 asked, the
+    joiner 21 did not (both announce call_timeout): the CALL routed to 20 carries
+    timeout = 100 and arms no timer; the next one, routed to 21, carries none and
+    the router arms its timer (deadline 100) *)
+Example histories_c13_forward_hypotheses_satisfiable :
+    c_authz FwdEx.cfg0 = None /\ Forall op_ok FwdEx.ops /\ k0 FwdEx.cfg0 + N.of_nat (List.length FwdEx.ops) <= max_idN /\
+    FwdEx.ops = FwdEx.pre5 ++ FwdEx.call1 :: [FwdEx.call2] /\ FwdEx.ops = (FwdEx.pre5 ++ [FwdEx.call1]) ++ FwdEx.call2 :: [].
+Proof. exact FwdEx.hyps. Qed.
+
+Example histories_c13_forward_creator_asks :
+    snd (run (init_realm FwdEx.cfg0) FwdEx.ops) =
+    [[]; []; []; [(20, RRegistered 1 24)]; [(21, RRegistered 1 24)];
+     [(20, RInvocation 1 24 FwdEx.det_fwd [] [])];
+     [(21, RInvocation 1 24 FwdEx.det_plain [] [])]].
+Proof. exact FwdEx.outs. Qed.
+
+Example histories_c13_forward_timers :
+    d_timers (r_dealer (fst (run (init_realm FwdEx.cfg0) (FwdEx.pre5 ++ [FwdEx.call1])))) = [] /\
+    d_timers (r_dealer (fst (run (init_realm FwdEx.cfg0) FwdEx.ops))) = [(1, (100, (22, 2)))].
+Proof. exact FwdEx.timers. Qed.
+
+Example histories_c13_forward_lists :
+    exists rg, nget (d_regs (r_dealer (fst (run (init_realm FwdEx.cfg0) FwdEx.ops)))) 24 = Some rg /\
+               reg_fwd_timeout rg = [20] /\ reg_callees rg = [20; 21].
+Proof. exact FwdEx.lists. Qed.
+
+Example histories_c13_forward_only_if_hypotheses_satisfiable :
+    In (20, RInvocation 1 24 FwdEx.det_fwd [] []) (snd (step (fst (run (init_realm FwdEx.cfg0) FwdEx.pre5)) FwdEx.call1)) /\
+    dget FwdEx.det_fwd "timeout" <> None.
+Proof. exact FwdEx.only_if_hyps. Qed.
+
+(** the converse: the joiner asks, the creator does not *)
+Example histories_c13_forward_joiner_asks :
+    Forall op_ok FwdConvEx.ops /\ k0 FwdEx.cfg0 + N.of_nat (List.length FwdConvEx.ops) <= max_idN /\
+    snd (run (init_realm FwdEx.cfg0) FwdConvEx.ops) =
+    [[]; []; []; [(20, RRegistered 1 24)]; [(21, RRegistered 1 24)];
+     [(20, RInvocation 1 24 FwdEx.det_plain [] [])];
+     [(21, RInvocation 1 24 FwdEx.det_fwd [] [])]] /\
+    d_timers (r_dealer (fst (run (init_realm FwdEx.cfg0) (FwdConvEx.pre5 ++ [FwdEx.call1])))) = [(1, (100, (22, 1)))] /\
+    d_timers (r_dealer (fst (run (init_realm FwdEx.cfg0) FwdConvEx.ops))) = [(1, (100, (22, 1)))].
+Proof. exact FwdConvEx.outs. Qed.
